@@ -322,6 +322,14 @@ def _serve_parts(ans):
 
 
 def judge_c08(ctx, idx, op, impl, mi, ms, reason):
+    if op[0] == "lsn":
+        # the same loop behind the real listeners (plain TCP / TLS): every request answered, in order, to its connection
+        f = judge_c10(ctx, idx, op, impl, mi, ms, reason)
+        for x in f:
+            if x.kind == "property":
+                x.name = "C08_all_good"
+                x.msg = "through the real listener: " + x.msg
+        return f
     f = same(ctx, idx, op, impl, mi, "Server.serve <-> DiameterServer::process_incoming_message (verif_serve_stream)")
     if op[0] != "serve":
         ctx.count("op_" + op[0])
@@ -661,6 +669,9 @@ def judge_c16(ctx, idx, op, impl, mi, ms, reason):
         if impl == "err":
             if ms != "def:none":
                 f.append(Finding("property", idx, "building an AVP by a name the dictionary contains failed", expected="ok", observed=impl, name="C16_from_name"))
+            elif (label.split(" ")[2:3] == ["element"]):
+                # the name is declared by an <avp> element of a shipped document (whatever came later in that document)
+                f.append(Finding("property", idx, "a name that a shipped dictionary declares (%s) cannot be used to build an AVP" % " ".join(label.split(" ")[3:]), expected="ok", observed=impl, name="C16_from_name"))
             st["frozen"] = dict(st.get("seen", {}))
     elif op[0] in ("enc", "len", "dump"):
         if "frozen" in st and not st.get("moved"):
@@ -800,7 +811,7 @@ PROPS = {
     "C05": dict(family="c05", judge=judge_c05, probes=("ench", "encw", "senc"), expect_keys=["senc_ok", "senc_err", "ench_ok", "ench_err_unrepresentable", "encw_ok", "encw_err", "encw_err_unrepresentable", "encw_fault_inside_frame", "encw_mode_1_2_zero", "encw_mode_0_0_err"], title="Encoding never reports success for a frame it did not fully produce"),
     "C06": dict(family="c06", judge=judge_c06, probes=("sdec", "senc"), title="Stream framing is independent of how bytes are segmented"),
     "C07": dict(family="c07", judge=judge_c07, probes=("sdec",), expect_keys=["L_gt1MiB_err", "L_inrange_err", "L_inrange_ok", "L_lt20_err"], title="Hostile frame lengths on a stream are refused cheaply and safely"),
-    "C08": dict(family="c08", judge=judge_c08, probes=("serve",), expect_keys=["serve_good", "serve_herr", "serve_unencodable", "serve_malformed_kind0", "serve_malformed_kind1", "serve_malformed_kind2", "serve_malformed_kind3"], title="Server answers each request exactly once, in order, unmodified"),
+    "C08": dict(family="c08", judge=judge_c08, probes=("serve", "lsn"), expect_keys=["serve_good", "serve_herr", "serve_unencodable", "serve_malformed_kind0", "serve_malformed_kind1", "serve_malformed_kind2", "serve_malformed_kind3"], title="Server answers each request exactly once, in order, unmodified"),
     "C09": dict(family="c09", judge=judge_c08, probes=("serve",), expect_keys=["serve_readcut", "serve_writecut"], title="Server survives connection loss at any byte offset"),
     "C10": dict(family="c10", judge=judge_c10, probes=("lsn",), title="One misbehaving connection cannot disturb the others"),
     "C13": dict(family="c13", judge=judge_c13, probes=("tls", "tlsq"), title="TLS settings are honoured exactly"),
